@@ -63,6 +63,7 @@ fn main() {
         "md5" => md5::run_selftest(rest),
         "hs-edges" => handshake::run_edges(rest),
         "hs-paths" => handshake::run_paths(rest),
+        "hs-family" => handshake::run_family(rest),
         "hs-wire" => handshake::run_wire(rest),
         "pid-run" => pid::run(rest),
         "rpc-run" => rpc::run(rest),
